@@ -284,7 +284,13 @@ def run(ctx):
             if tot != ref_dist(s, t, (1, 1, 1)) or py(summ.nb_errors) != ref_dist(s, t, (1, 1, 1)):
                 ctx.violation('summary:%s' % kind_class(s, t), 'ErrorsSummary: sub+ins+del != distance', inp,
                               [py(summ.nb_subs), py(summ.nb_inss), py(summ.nb_dels), py(summ.nb_errors)], ref_dist(s, t, (1, 1, 1)))
-            impl.append({'stats': [py(summ.nb_inss), py(summ.nb_dels), py(summ.nb_subs)]})
+            ee = summ.ending_errors
+            flags = [bool(ee.correct), bool(ee.pure_deletions), bool(ee.mixed_deletions), bool(ee.pure_insertions),
+                     bool(ee.mixed_insertions), bool(ee.pure_substitutions)]
+            if sum(flags) != 1:
+                ctx.violation('summary-ending:%s' % kind_class(s, t), "a line's summary does not set exactly one line-end flag", inp, flags)
+            impl.append({'stats': [py(summ.nb_inss), py(summ.nb_dels), py(summ.nb_subs)],
+                         'ending': flags.index(True) if sum(flags) == 1 else 6})
             hi_, ri_ = ids_of(t, s)
             reqs.append(dict(p='C13', op='stats', s=hi_, t=ri_, c=[1, 1, 1]))
         except Exception as e:
@@ -411,6 +417,8 @@ def run(ctx):
                 # model: (nphn, ncor, nins, ndel, nsub)
                 if [m[2], m[3], m[4]] != out['stats']:
                     ctx.disagree('C13.stats model != implementation', reqs[k - 1], out['stats'], m)
+                elif len(m) > 5 and m[5] != out.get('ending', m[5]):
+                    ctx.disagree('C13.ending model != implementation (line-end class of the summary)', reqs[k - 1], out.get('ending'), m[5])
                 else:
                     ctx.traces_validated += 1
         rep = common.Driver(ctx).batch(alsub_reqs)
